@@ -7,7 +7,8 @@
 (* statement level: SetOperation appends a new operation, a call adds what    *)
 (* its filter really rejected to `banned`.                                    *)
 (* Overlapping calls (events CallB c / CallE c, logged in real-time order;    *)
-(* SetB / SetE when the stores run beside the calls): `run[c]` keeps what     *)
+(* SetB k / SetE k when a store runs beside calls or beside another store of  *)
+(* the same operation): `run[c]` keeps what     *)
 (* PoolOps.Begin keeps for a call in flight - `banned` and Len(added) at its  *)
 (* start, what the filters of overlapping calls reject - and CallE judges the *)
 (* result as PoolOps.End does: R1, R2, R3 per call, R6 against the calls that *)
@@ -28,26 +29,38 @@ Expect(class, got, want) == IF got = want THEN TRUE
                             ELSE PrintT(<<"MISMATCH", class, l, got, want>>)
 B2N(b) == IF b THEN 1 ELSE 0
 Consume == l <= Len(Trace) /\ l' = l + 1
-Unused == UNCHANGED <<ibanned, nreset, ncalls, last, hist, step>>
+Unused == UNCHANGED <<ibanned, orphan, nreset, ncalls, ntwice, last, hist, step>>
 
 TReset == /\ Consume /\ Ev.a = "Reset" /\ Unused
           /\ added' = <<>> /\ banned' = {} /\ pend' = {} /\ run' = [c \in Callers |-> Idle]
 
 (* R5: storing a stored operation again returns false and changes nothing *)
-SetReturned ==
-  /\ Expect("R0-set-returns", B2N(Ev.panic \/ Ev.err), 0)
-  /\ (~(Ev.panic \/ Ev.err)) => Expect("R5-set-idempotent", B2N(Ev.ret), B2N(Ev.op \notin Range(added)))
-  /\ added' = IF Ev.op \in Range(added) THEN added ELSE Append(added, Ev.op)
 TSet == /\ Consume /\ Ev.a = "Set" /\ Unused
-        /\ SetReturned
+        /\ Expect("R0-set-returns", B2N(Ev.panic \/ Ev.err), 0)
+        /\ (~(Ev.panic \/ Ev.err)) => Expect("R5-set-idempotent", B2N(Ev.ret), B2N(Ev.op \notin Range(added)))
+        /\ added' = IF Ev.op \in Range(added) THEN added ELSE Append(added, Ev.op)
         /\ UNCHANGED <<banned, run, pend>>
-(* a store that runs beside calls (one storing goroutine: the stores are ordered) *)
+(* a store (of setter k) that runs beside calls and beside other stores of the SAME operation *)
+(* (stores of different operations never overlap: the order of `added` is the order of the    *)
+(* stores). `was`: a store of the operation had returned when this one started - then it must *)
+(* return false; if no store of the operation has returned and none is in flight when this    *)
+(* one returns it must return true; two stores of one operation that overlap may both return  *)
+(* true as far as the alarm goes (the stronger reading is counted by the check).              *)
 TSetB == /\ Consume /\ Ev.a = "SetB" /\ Unused
-         /\ pend' = pend \cup {Ev.op}
+         /\ \A x \in pend : x.k # Ev.k
+         /\ pend' = pend \cup {[k |-> Ev.k, op |-> Ev.op, was |-> Ev.op \in Range(added)]}
          /\ UNCHANGED <<added, banned, run>>
 TSetE == /\ Consume /\ Ev.a = "SetE" /\ Unused
-         /\ SetReturned
-         /\ pend' = pend \ {Ev.op}
+         /\ \E p \in pend :
+              /\ p.k = Ev.k
+              /\ pend' = pend \ {p}
+              /\ Expect("R0-set-returns", B2N(Ev.panic \/ Ev.err), 0)
+              /\ (~(Ev.panic \/ Ev.err)) =>
+                    IF p.was THEN Expect("R5-set-idempotent", B2N(Ev.ret), 0)
+                    ELSE IF p.op \notin Range(added) /\ \A x \in pend \ {p} : x.op # p.op
+                         THEN Expect("R5-set-idempotent", B2N(Ev.ret), 1)
+                    ELSE TRUE
+              /\ added' = IF p.op \in Range(added) THEN added ELSE Append(added, p.op)
          /\ UNCHANGED <<banned, run>>
 
 (* what every returned call is judged against, overlapping or not: bb = banned when   *)
@@ -58,7 +71,7 @@ Judge(ret, L, Rej, bb, r4) ==
        /\ Expect("R1-at-most-limit", B2N(R1(ret, L)), 1)
        /\ Expect("R2-operations-distinct", B2N(R2ops(ret)), 1)
        /\ Expect("R2-facts-distinct", B2N(R2facts(ret)), 1)
-       /\ Expect("R3-stored", B2N(Range(ret) \subseteq (Range(added) \cup pend) /\ Len(Ev.unstored) = 0 /\ ~Ev.metabad), 1)
+       /\ Expect("R3-stored", B2N(Range(ret) \subseteq (Range(added) \cup {x.op : x \in pend}) /\ Len(Ev.unstored) = 0 /\ ~Ev.metabad), 1)
        /\ Expect("R3-passes-filter", B2N(Range(ret) \cap Rej = {}), 1)
        /\ Expect("R4-most-recent", B2N(r4), 1)
        /\ Expect("R6-filtered-out-again", B2N(R6(ret, bb)), 1)
